@@ -200,7 +200,20 @@ class Streams:
 
 
 def run_harness(binary, args, base, mpi_np=None, timeout=600, env=None):
-    """runs harness; it writes base.ops/.impl/.oracle; returns Streams (without model)"""
+    """runs harness; it writes base.ops/.impl/.oracle; returns Streams (without model).
+    An MPI batch whose every case was answered but whose `mpirun` still returned non-zero (seen under heavy load: a rank
+    "exiting improperly" during MPI_Finalize after all work was done) is run once more before it is judged; a failure
+    that belongs to the code under test (a destructor, a sanitizer report at exit) shows up again and is reported."""
+    st, rc = _run_harness_once(binary, args, base, mpi_np, timeout, env)
+    if mpi_np and rc not in (0, -9) and st.ops and len(st.impl) == len(st.ops) == len(st.oracle):
+        first = st.crashlog
+        st, rc = _run_harness_once(binary, args, base, mpi_np, timeout, env)
+        if rc != 0:
+            st.crashlog = "(second run of the batch; the first ended: %s)\n%s" % (first[-400:], st.crashlog)
+    return st, rc
+
+
+def _run_harness_once(binary, args, base, mpi_np=None, timeout=600, env=None):
     for ext in (".ops", ".impl", ".oracle"):
         if ext == ".ops" and "--replay" in args:
             continue
